@@ -50,6 +50,7 @@ def vec_boundary(shapes, L, with_masks=True):
             add(["clear r0", "push r0 23"], "clear")
             add(["push r0 24", "push r0 25"], "push")
             add(["drop r0"], "drop")
+            add(["unwind_drop r0", "push r0 28"], "unwind_drop")
             for m in range(3):
                 add([setup(m, "r1", 10), "append r0 r1", "len r1", "push r1 26"], "append")
                 add([f"extend r0 {tl(tags(m, 12))}"], "extend")
@@ -125,7 +126,7 @@ def vec_random(shapes, count, nops, seed, p_invalid=0.15, max_len=12):
             elif op == "clear":
                 lines.append(f"clear r{r}"); lens[r] = 0
             elif op == "drop":
-                lines.append(f"drop r{r}"); lens[r] = 0
+                lines.append(f"{rng.choice(['drop', 'unwind_drop'])} r{r}"); lens[r] = 0
             elif op == "append":
                 q = (r + 1 + rng.randrange(2)) % 3
                 if lens[r] + lens[q] > max_len: continue
